@@ -348,7 +348,7 @@ def event_driver(chk, scheme, ham, direction, max_steps, budget):
     y0 = np.array([W.var('y0_0')])
     rtol, atol, hmax, hmin, xtol, gtol = W.vars('rtol atol max_step min_step xtol gtol')
     tag = '%s%s/direction=%d' % (scheme, '_ham' if ham else '', direction)
-    ex = Explorer(max_paths=6000, time_budget_s=budget, max_decisions=200)
+    ex = Explorer(max_paths=6000 if budget <= 600 else 40000, time_budget_s=budget, max_decisions=200)
     ex.abs_by_branch = False
     with explore.activate(ex):
         ex.assume(tA < tB)
@@ -608,7 +608,7 @@ def main():
     it = 4 if thorough else 3
     ms = 3 if thorough else 2
     chk.bound(truth_tables='all float64 pairs (QF_FP), directions {0, 1, 2, -1, -3}', bisection='unwound to %d midpoint evaluations (of 128); no inductive claim beyond' % it,
-              drivers='<= %d kernel calls (adaptive) / 2 steps (fixed, symplectic), state dimension 1 (6 symplectic)' % ms)
+              drivers='<= %d kernel calls (RK45, fixed; DOP853: 2) / 2 steps (symplectic), state dimension 1 (6 symplectic)' % ms)
     chk.assume('event function, vector field, step kernels, controller helpers and the dense interpolant are uninterpreted functions',
                'refinement precondition: the driver saw a strict direction-compatible sign change over the step (an exact zero at the step end is returned by the tolerance exit)',
                'h > 0, xtol > 0, gtol >= 0')
@@ -621,12 +621,13 @@ def main():
         refinement(chk, 'hermite', d, it, 600)
     for scheme in ('fixed', 'rk45', 'dop853'):
         for ham in (False, True):
-            event_driver(chk, scheme, ham, 0, ms, 600)
+            # three kernel calls through DOP853's error-norm logic exceed 40000 paths: DOP853 stays at two kernel calls in the thorough tier
+            event_driver(chk, scheme, ham, 0, 2 if scheme == 'dop853' else ms, 3000 if thorough else 600)
     for d in (1, -1):
-        event_driver(chk, 'rk45', False, d, ms, 600)
+        event_driver(chk, 'rk45', False, d, ms, 3000 if thorough else 600)
         if thorough:
-            event_driver(chk, 'dop853', False, d, ms, 600)
-            event_driver(chk, 'fixed', False, d, ms, 600)
+            event_driver(chk, 'dop853', False, d, 2, 3000)
+            event_driver(chk, 'fixed', False, d, ms, 3000)
     for d in (0, 1, -1):
         symplectic_event_driver(chk, d)
     integrate_packaging(chk)
